@@ -21,6 +21,7 @@ import NanoVerif.Model.Shape
 import NanoVerif.Model.ConfigFlow
 import NanoVerif.Model.ReuseSeq
 import NanoVerif.Model.DisjointSet
+import NanoVerif.Model.GlueSvg
 /-
 Correspondence driver.  One JSON object per input line: {"op": ..., ...}; one JSON object per
 output line.  Run: `lake env lean --run Driver.lean < ops.jsonl`.
@@ -304,6 +305,15 @@ def dispatch (op : String) (j : Json) : Except String Json := do
         | _ => .error "dset op")
       let d := DSet.empty.run ops
       return obj [("classes", Json.arr (d.classes.map (fun c => Json.arr (c.map (fun n => jI (Int.ofNat n))).toArray)).toArray)]
+  | "copy-svg-order" =>
+      let target ← getStrs (← field j "target")
+      let svg ← (← getArr (← field j "svg")).mapM (fun r => do
+        match (← getArr r) with
+        | [g, n] => pure ((← getNat g), (← getStr n))
+        | _ => .error "svg row")
+      match copySvgOrder target svg with
+      | some o => return obj [("order", jStrs o)]
+      | none => return obj [("order", Json.null)]
   | "masters-ok" =>
       let ms ← (← getArr (← field j "masters")).mapM getStrs
       return obj [("ok", Json.bool (mastersOk ms))]
